@@ -1,7 +1,7 @@
 //! C16 / C17: walks over the labelled transition graph exported by spec/VPModel.tla, stepped
 //! through a real builder-made SeparableModel with positional closures.
 use crate::report::Report;
-use crate::sc::Sc;
+use crate::sc::{bits_eq, Sc};
 use nalgebra::{DMatrix, DVector};
 use rayon::prelude::*;
 use serde::{Deserialize, Serialize};
@@ -246,6 +246,56 @@ fn run_cfg<T: Sc>(cfg: &CfgJ, edges: &[EdgeJ], deep: bool, rep: &mut Report) {
     }
 }
 
+/// "parameters set on the model are returned unchanged": every bit of them, and the functions see
+/// exactly these values.  Probed with vectors that are EQUAL as numbers but different as bit
+/// patterns (+0.0 / -0.0) applied one after the other, and with the extremes of the scalar type.
+fn probe_bits<T: Sc>(cfg: &CfgJ, rep: &mut Report) {
+    if cfg.bad.j != 0 {
+        return;
+    }
+    let p = cfg.mp.len();
+    let Ok(Ok(mut m)) = catch_unwind(AssertUnwindSafe(|| build_model::<T>(cfg))) else {
+        return;
+    };
+    let tiny = if T::NAME == "f64" { f64::from_bits(1) } else { f32::from_bits(1) as f64 };
+    let huge = if T::NAME == "f64" { f64::MAX } else { f32::MAX as f64 };
+    let vecs: Vec<Vec<T>> = vec![
+        (0..p).map(|i| T::of64(if i % 2 == 0 { 0.0 } else { 3.0 + i as f64 })).collect(),
+        (0..p).map(|i| T::of64(if i % 2 == 0 { -0.0 } else { 3.0 + i as f64 })).collect(),
+        (0..p).map(|i| T::of64(if i % 2 == 0 { 0.0 } else { 3.0 + i as f64 })).collect(),
+        (0..p).map(|i| T::of64(if i % 2 == 0 { tiny } else { -huge })).collect(),
+        (0..p).map(|i| T::of64(if i % 2 == 0 { -tiny } else { huge })).collect(),
+    ];
+    for (step, v) in vecs.iter().enumerate() {
+        let dv = DVector::from_vec(v.clone());
+        let det = |what: &str, got: String| json!({"cfg": cfg, "scalar": T::NAME, "ctx": "bit pattern probe", "step": step, "set": format!("{:?}", v.iter().map(|x| x.to64()).collect::<Vec<_>>()), "what": what, "got": got});
+        match catch_unwind(AssertUnwindSafe(|| m.set_params(dv.clone()))) {
+            Ok(Ok(())) => {}
+            other => {
+                rep.violation("C17", det("set_params with a vector of the right length did not return Ok", format!("{:?}", other.map(|r| r.map_err(|e| err_kind(&e))))));
+                return;
+            }
+        }
+        let got = m.params();
+        rep.check("C16", bits_eq(got.as_slice(), v), 0.0, || det("params() is not bit for bit what was set", format!("{:?}", got.iter().map(|x| x.to64()).collect::<Vec<_>>())));
+        // every function puts its arguments, in its own declaration order, into the first cells of its column
+        if let Ok(Ok(phi)) = catch_unwind(AssertUnwindSafe(|| m.eval())) {
+            let mut ok = true;
+            for (j, f) in cfg.funs.iter().enumerate() {
+                for (i, name) in f.ps.iter().enumerate() {
+                    if let Some(k) = cfg.mp.iter().position(|n| n == name) {
+                        if i < phi.nrows() && phi[(i, j)].bits() != v[k].bits() {
+                            ok = false;
+                        }
+                    }
+                }
+            }
+            rep.check("C16", ok, 0.0, || det("a function did not receive the bit patterns of the current parameters", String::new()));
+        }
+    }
+    rep.count("bit_pattern_probes", 1);
+}
+
 pub fn run(path: &str) -> Report {
     let lines = crate::export::read_tagged(path, "VPME");
     let mut groups: BTreeMap<String, Vec<EdgeJ>> = BTreeMap::new();
@@ -268,6 +318,8 @@ pub fn run(path: &str) -> Report {
             if gi % 2 == 0 {
                 run_cfg::<f32>(cfg, edges, false, &mut rep);
             }
+            probe_bits::<f64>(cfg, &mut rep);
+            probe_bits::<f32>(cfg, &mut rep);
             rep.count("configurations", 1);
             rep.count("edges", edges.len() as u64);
             if cfg.bad.j != 0 {
